@@ -87,6 +87,7 @@ func argFor(cc *ssa.CallCommon, g *ssa.Function, j int) ssa.Value {
 }
 
 func runC08(c *Ctx) {
+	c.cleanLoopStopsOnlyForARemovalError()
 	// the function that compiles the patterns is an applier of them, under whatever name (extracted body of NewExclusionRegexList)
 	if _, comp := c.c08Compiler(); comp != nil {
 		c08Appliers[comp.Name()] = true
